@@ -40,6 +40,11 @@ pub fn cases(rng: &mut Rng, tier: &str) -> (Vec<Case>, bool) {
             // only by letter case inside a string, a remark or a DATA item, or not at all, or returns to an earlier text
             text.push_str("\n9950 print \"hello\"\n9951 DATA abc, \"Def\"\n9952 rem Note\n9950 PRINT \"Hello\"\n9951 data ABC, \"def\"\n9952 REM note\n9953 READ S$, T$ : PRINT S$; T$\n9954 PRINT 1\n9954 PRINT 2\n9954 PRINT 1\n9955 X = 1\n9955 X = 1");
         }
+        if i % 6 == 1 {
+            // the program asks for more input than there is (both modes meet the end of their input at an INPUT, with prompt
+            // text and trace records pending)
+            text.push_str("\n9940 PRINT \"HOW MANY\";: INPUT N9\n9941 PRINT \"GOT\"; N9");
+        }
         if i % 4 == 2 {
             // line numbers beyond what any classic BASIC allowed, up to the largest the store takes
             text.push_str("\n63999 X9 = 1\n64000 PRINT \"BIG\"; X9\n100000 Y9 = 2\n4294967296 PRINT Y9\n18446744073709551615 END");
